@@ -16,4 +16,4 @@ run_one() {
   git -C /repo worktree remove --force $wt
 }
 export -f run_one
-printf '%s\n' $ids | xargs -P 4 -I{} bash -c 'run_one {}'
+printf '%s\n' $ids | xargs -P ${SEED_PAR:-4} -I{} bash -c 'run_one {}'
